@@ -22,6 +22,26 @@ CHECKS['C17'] = dict(
         'validated for the PrimFloat instance on every generated tuple, not proved; Print Assumptions of the non-vacuity theorem lists the PrimFloat/Uint63 kernel primitives. OpenCV interpolation is not modelled.',
    technique='Coq proof (lia/nia arithmetic lemmas; index arithmetic for permutations) + PrimFloat-exact differential correspondence',
    ref='§6 C17')
+PROTO_NOTE = NOTE_COMMON + ('The simzmq stand-in for pyzmq (harness/simzmq.py) and the scripted environment are trusted to behave like ZeroMQ '
+              'at the socket API; local theorems assume nothing about the network. Clauses not yet proved are listed under coverage.partial in the evidence.')
+CHECKS['C01'] = dict(
+   text='Theorem over the Gallina receiver machine (transliteration of ZMQReceiver.recv/recv_once/process_msg incl. the poller) for EVERY configuration '
+        'and EVERY list of deliveries, poll answers, calls, clock values: a returned set never holds a synchronized frame published under another id '
+        '(invariant J lifted over all reachable states); refutation witness for the pinned code; the machine is compared item by item (outputs + state digest) '
+        'with the real class under a scripted fake ZeroMQ on every run.',
+   note=PROTO_NOTE, technique='Coq proof (inductive invariant over a reactive machine, all input sequences) + differential correspondence', ref='§5, §6 C01')
+CHECKS['C02'] = dict(
+   text='Theorems for every item list: ids returned by a receiver strictly increase (legal call states), a sender publishes each id at most once in increasing order '
+        'and its low-water mark is monotone; receiver and sender machines compared with the real classes on every run; topic-map/payload oracle on the implementation.',
+   note=PROTO_NOTE, technique='Coq proof (ordering invariants over both machines) + differential correspondence', ref='§5, §6 C02')
+CHECKS['C05'] = dict(
+   text="Theorems for every item list: a '??' source never pushes anything; an ephemeral request never rewinds/fast-forwards/discards; the publish gate of a non-balanced "
+        'publisher ignores ephemeral clients; machines compared with the real classes; all-or-nothing and ordering of ephemeral portions by oracle.',
+   note=PROTO_NOTE, technique='Coq proof (trace property over all runs; gate independence lemma) + differential correspondence', ref='§5, §6 C05')
+CHECKS['C07'] = dict(
+   text='Theorems for every item list: a balanced publisher writes each frame to exactly one branch and un-requests only that branch; the rejoined stream is strictly increasing; '
+        'first hop never prefetches; one-source/one-id of balanced sets by oracle; machines compared with the real classes.',
+   note=PROTO_NOTE, technique='Coq proof (publish-shape invariant over all runs, ordering invariant) + differential correspondence', ref='§5, §6 C07')
 NOT_YET = {}
 def main():
     props = [json.loads(l) for l in open(os.path.join(VERIF, 'properties.jsonl'))]
